@@ -173,19 +173,24 @@ impl AsCborValue for CoseKey {
 
     fn to_cbor_value(self) -> Result<Value> {
         let mut map: Vec<(Value, Value)> = vec![(KTY.to_cbor_value()?, self.kty.to_cbor_value()?)];
+        let mut seen = BTreeSet::new();
+        seen.insert(KTY);
         if !self.key_id.is_empty() {
             map.push((KID.to_cbor_value()?, Value::Bytes(self.key_id)));
+            seen.insert(KID);
         }
         if let Some(alg) = self.alg {
             map.push((ALG.to_cbor_value()?, alg.to_cbor_value()?));
+            seen.insert(ALG);
         }
         if !self.key_ops.is_empty() {
             map.push((KEY_OPS.to_cbor_value()?, to_cbor_array(self.key_ops)?));
+            seen.insert(KEY_OPS);
         }
         if !self.base_iv.is_empty() {
             map.push((BASE_IV.to_cbor_value()?, Value::Bytes(self.base_iv)));
+            seen.insert(BASE_IV);
         }
-        let mut seen = BTreeSet::new();
         for (label, value) in self.params {
             if seen.contains(&label) {
                 return Err(CoseError::DuplicateMapKey);
